@@ -356,7 +356,13 @@ class Pool(localbase):
             if core.local.debug: core.log_orm('GET NEW CONNECTION')
             is_new_connection = True
             pool.pid = pid  # _connect() may fail after it has assigned pool.con: that connection belongs to this process
-            pool._connect()
+            try: pool._connect()
+            except:  # a connection whose initialisation failed must not stay pooled half-configured (e.g. foreign keys off)
+                con, pool.con = pool.con, None
+                if con is not None:
+                    try: con.close()
+                    except Exception: pass
+                raise
         elif core.local.debug:
             core.log_orm('GET CONNECTION FROM THE LOCAL POOL')
         return pool.con, is_new_connection
